@@ -38,7 +38,7 @@ m = {
     "engines": [
         {"name": "lean4-proof+correspondence", "path": "/verif/lean, /verif/harness, /verif/check",
          "serves_properties": [c["property_id"] for c in checks],
-         "kind_free_text": "Lean 4 theorems about executable models (lean/Model, lean/Spec); models tied to /repo on every run by regenerated facts (harness/cmd/factgen -> lean/Gen) and by differential execution of the real code against the compiled Lean driver; Go monitors search the real code for a failing input"},
+         "kind_free_text": "Lean 4 theorems about executable models (lean/Model, lean/Spec); models tied to /repo on every run by regenerated facts (the `facts` sub-command of each harness/cmd/<property> binary -> lean/Gen) and by differential execution of the real code against the compiled Lean driver; Go monitors search the real code for a failing input"},
     ],
     "checks": checks,
     "not_applicable": na,
